@@ -428,6 +428,9 @@ func solveAll(e *Exec, res *HarnessResult, prop string, timeoutS int, meta *Harn
 					rep = nativeReplay(prop, meta, dir)
 				}
 				or.Replayed = rep
+				if rep == "reproduced" || rep == "not-reproduced" {
+					res.Replays++
+				}
 				if rep == "not-reproduced" {
 					or.Res = "unknown"
 					or.Detail += " solver counterexample did NOT reproduce natively (encoder or stub suspect)"
